@@ -258,6 +258,55 @@ def judge(traces, wd_name="netnode"):
     return res, stats
 
 
+def selftest(chk, traces, verdicts):
+    """the binding is demonstrated on every run: accepted executions with ONE recorded fact altered must be rejected
+    (a result flipped, an arrival removed = a missing observation point, a forwarded frame altered, a NETWORK_ACK removed)"""
+    import copy
+    ok = [t for t, v in zip(traces, verdicts) if v["clause"] == "ok"]
+    muts = []
+
+    def first(t, pred):
+        return next((i for i, e in enumerate(t["ev"]) if pred(e)), None)
+    for t in ok:
+        if len(muts) >= 12:
+            break
+        routed_ack = any(e["k"] == "txdone" and e["f"]["typ"] == 193 for e in t["ev"])
+        if not routed_ack:
+            continue
+        for what in ("flip-ret", "drop-arrive", "alter-forward", "drop-ack"):
+            m = copy.deepcopy(t)
+            if what == "flip-ret":
+                i = first(m, lambda e: e["k"] == "ret")
+                if i is None:
+                    continue
+                m["ev"][i]["res"] = not m["ev"][i]["res"]
+            elif what == "drop-arrive":
+                i = first(m, lambda e: e["k"] == "arrive")
+                if i is None:
+                    continue
+                del m["ev"][i]
+            elif what == "alter-forward":
+                idx = [i for i, e in enumerate(m["ev"]) if e["k"] == "arrive" and e["f"]["typ"] != 193]
+                if len(idx) < 2:
+                    continue
+                m["ev"][idx[1]]["f"]["id"] ^= 1
+            else:
+                idx = [i for i, e in enumerate(m["ev"]) if e["k"] in ("arrive", "txdone") and e["f"]["typ"] == 193 and e["n"] == next(
+                    x["n"] for x in m["ev"] if x["k"] == "txdone" and x["f"]["typ"] == 193)]
+                for i in reversed(idx):
+                    del m["ev"][i]
+            m["what"] = what
+            muts.append(m)
+    if not muts:
+        return
+    v, _ = judge(muts, "netnode_selftest")
+    bad = [m["what"] for m, x in zip(muts, v) if x["clause"] == "ok"]
+    if bad:
+        raise tlc.TlcError("TraceNetNode accepted altered executions (%s): the monitor no longer constrains the code" % bad)
+    chk.extra["netnode_selftest"] = dict(altered_executions=len(muts), rejected=len(muts),
+                                         clauses=sorted({x["clause"] for x in v}))
+
+
 def conform(chk, quick, prop_clauses=None):
     """run the conformance phase; violations of listed clauses are reported through chk, drift as notes"""
     jobs = jobs_for(chk.seed, quick)
@@ -268,6 +317,18 @@ def conform(chk, quick, prop_clauses=None):
     chk.traces += len(traces)
     nev = sum(len(t["ev"]) for t in traces)
     chk.note("NetNode conformance: %d executions, %d events (every event is a model action in the state reached)" % (len(traces), nev))
+    kinds = {}
+    for t in traces:
+        for e in t["ev"]:
+            kinds[e["k"]] = kinds.get(e["k"], 0) + 1
+            if e["k"] == "arrive" and e.get("again"):
+                kinds["re-arrival"] = kinds.get("re-arrival", 0) + 1
+            if e["k"] == "txdone" and not e["ok"]:
+                kinds["failed transmission"] = kinds.get("failed transmission", 0) + 1
+            if e["k"] == "ret" and not e["res"]:
+                kinds["write() False"] = kinds.get("write() False", 0) + 1
+    chk.extra["netnode_events"] = kinds
+    selftest(chk, traces, verdicts)
     found = {}
     for t, v in zip(traces, verdicts):
         chk.case(("netnode", str(t["meta"])))
